@@ -40,6 +40,13 @@ func (p *printer) write(b []byte) {
 		return
 	}
 
+	if p.state == PrinterStateHTML && p.last == nil && bytes.HasPrefix(b, []byte("#!")) {
+		// a shebang line stays in front of the open tag
+		p.last = b
+		p.output.Write(b)
+		return
+	}
+
 	if p.state == PrinterStateHTML {
 		if !bytes.HasPrefix(b, []byte("<?")) {
 			p.output.Write([]byte("<?php "))
